@@ -147,6 +147,9 @@ inductive Call where
   | readDir (p : Path)                               -- direct children
   | removeTree (p : Path)                            -- remove_dir_all
   | now
+  | isLink (p : Path)                                -- lstat: is the node at p itself a symlink?
+  | mkTempLink (dir : Path) (t : Target)             -- a symlink to t under a fresh name in dir
+  | renameLink (src dst : Path)                      -- rename(2) of a symlink (`rename` is the regular-file case)
   deriving Repr
 
 inductive Ret where
@@ -297,19 +300,35 @@ def exec (env : Env) (fs : FS) : Call → FS × Ret
     | some (.file _) => (fs, .err .other)
     | none => (fs, .err .notFound)
   | .now => (fs, .nat (env.clock % (timeMax + 1)))
+  | .isLink p =>
+    match fs.get p with
+    | some (.link _) => (fs, .bool true)
+    | _ => (fs, .bool false)
+  | .mkTempLink dir t =>
+    if fs.isDir dir then
+      let p := dir ++ [tmpName fs.next]
+      ({ (fs.put p (.link t)) with next := fs.next + 1 }, .path p)
+    else (fs, .err .notFound)
+  | .renameLink src dst =>
+    match fs.get src with
+    | some (.link t) =>
+      if !fs.isDir (parent dst) then (fs, .err .notFound)
+      else if fs.get dst == some .dir then (fs, .err .other)
+      else ((fs.del src).put dst (.link t), .unit)
+    | _ => (fs, .err .notFound)
 
 /-- Does the call change the filesystem at all (used by C15 "reads do not mutate")? -/
 def Call.mutating : Call → Bool
-  | .readFile _ | .existsF _ | .sizeOf _ | .walk _ | .readDir _ | .now => false
+  | .readFile _ | .existsF _ | .sizeOf _ | .walk _ | .readDir _ | .now | .isLink _ => false
   | _ => true
 
 /-- The paths a call may create, change or delete. -/
 def Call.touched : Call → List Path
   | .mkdirP p => FS.prefixes p
-  | .mkTemp dir => [dir]          -- creates a fresh child of `dir`
+  | .mkTemp dir | .mkTempLink dir _ => [dir]          -- creates a fresh child of `dir`
   | .fallocate p _ | .writeAt p _ _ | .truncate p _ | .openAppend p | .appendWrite p _
   | .unlink p | .removeTree p => [p]
-  | .rename s d => [s, d]
+  | .rename s d | .renameLink s d => [s, d]
   | .hardLink _ d | .symlink _ d | .copyFile _ d | .reflink _ d => [d]
   | _ => []
 
